@@ -8,7 +8,7 @@ import tempfile
 import astwire
 from gens.programs import Opts, Gen
 
-THEOREMS = []
+THEOREMS = ['roundtrip_toDict', 'fromDict_attrs', 'fromDict_toDict']
 RULE = ('results of the real analysis on generated and corner-case files (functions without variables, without binary '
         'operations, finite, infinite with and without --fin; loop mode) are saved with save_result to a temporary '
         'file, loaded with load_result and saved again: the two JSON documents must be equal; the restored relation '
@@ -115,6 +115,13 @@ def run(ctx):
                     ctx.violation({'kind': 'save-load-raises', 'exception': type(e).__name__},
                                   f'save/load raised {type(e).__name__} for `{src[:120]}` mode={mode} fin={fin}', inp)
                     continue
+                if ctx.drv is not None:
+                    try:
+                        m = ctx.drv.call('model.result_roundtrip', doc=d1)
+                        if m.get('ok') != d2:
+                            ctx.disagree('model.result_roundtrip', {**inp, 'path': diff_keys(m.get('ok'), d2)})
+                    except Exception as e:
+                        ctx.disagree('model.result_roundtrip(error)', {**inp, 'error': str(e)[:200]})
                 dk = diff_keys(d1, d2)
                 if dk:
                     ctx.violation({'kind': 'json-differs-after-reload', 'path': generic_path(dk)},
